@@ -98,11 +98,11 @@ func divertingIfs(fn *ssa.Function, tainted map[ssa.Value]bool, target ssa.Instr
 
 // fieldFacts are per-field summaries derived from the access table.
 type fieldFacts struct {
-	ls       *Lockset
-	key      string
-	readers  map[*ssa.Function]bool // functions reading the field directly
+	ls        *Lockset
+	key       string
+	readers   map[*ssa.Function]bool // functions reading the field directly
 	inserters map[*ssa.Function]bool // functions inserting directly
-	insAcc   []Access
+	insAcc    []Access
 }
 
 func isSelfAppend(st *ssa.Store, fld *types.Var) bool {
@@ -319,9 +319,10 @@ func (ff *fieldFacts) locksAtAllInsertions() map[string]bool {
 }
 
 // absenceThenInsert applies the rule to one collection field.
-//   (a) every read of the collection that decides an insertion is in the same
-//       critical section as the insertion, of a lock held at every insertion site;
-//   (b) if requireScan: every insertion is decided by at least one such read.
+//
+//	(a) every read of the collection that decides an insertion is in the same
+//	    critical section as the insertion, of a lock held at every insertion site;
+//	(b) if requireScan: every insertion is decided by at least one such read.
 func absenceThenInsert(p *Prog, ls *Lockset, r *Report, rule, key string, requireScan bool, floorIns int) {
 	ff := ls.Facts(key)
 	common := ff.locksAtAllInsertions()
@@ -470,4 +471,70 @@ func sortedFns(m map[*ssa.Function]bool) []*ssa.Function {
 	}
 	sort.Slice(r, func(i, j int) bool { return r[i].String() < r[j].String() })
 	return r
+}
+
+// rebuildAtomic: read-modify-write of a guarded collection field. For every
+// store to the field whose value derives from a load of the same field in the
+// same function (a rebuilt or extended list), the load and the store lie in one
+// critical section. Otherwise an update made by another goroutine between the
+// two is overwritten (lost update), although every single access is locked.
+func rebuildAtomic(p *Prog, ls *Lockset, r *Report, rule, key string, floor int) {
+	n := 0
+	byFn := map[*ssa.Function][]Access{}
+	for _, a := range ls.Accesses[key] {
+		if a.Ctor || isWrapper(a.Fn) {
+			continue
+		}
+		byFn[a.Fn] = append(byFn[a.Fn], a)
+	}
+	for _, fn := range sortedFns(fnSet(byFn)) {
+		accs := byFn[fn]
+		idx := 0
+		for _, w := range accs {
+			st, ok := w.Ins.(*ssa.Store)
+			if !ok || w.Kind != "W" {
+				continue
+			}
+			var feeding []Access
+			for _, rd := range accs {
+				if rd.Kind != "R" && rd.Kind != "MR" {
+					continue
+				}
+				v, ok := rd.Ins.(ssa.Value)
+				if !ok {
+					continue
+				}
+				if forwardTaint(v)[st.Val] {
+					feeding = append(feeding, rd)
+				}
+			}
+			if len(feeding) == 0 {
+				continue
+			}
+			idx++
+			n++
+			k := fmt.Sprintf("field:%s|fn:%s|rebuild#%d", key, FnName(originOf(fn)), idx)
+			ok = true
+			detail := ""
+			for _, rd := range feeding {
+				secs := ls.CommonSections(rd.Ins, st)
+				if len(secs) == 0 {
+					ok = false
+					detail = fmt.Sprintf("the list stored at %s was computed from the list read at %s, but the read and the store do not share a critical section (locks at the read %s, at the store %s): an entry added or removed by another goroutine in between is lost", p.InstrPos(st), p.InstrPos(rd.Ins), ls.At(rd.Ins), ls.At(st))
+				} else if detail == "" {
+					detail = fmt.Sprintf("read at %s and store share one critical section of %v", p.InstrPos(rd.Ins), secs)
+				}
+			}
+			r.Check(rule, k, ok, p.InstrPos(st), detail)
+		}
+	}
+	r.Floor(rule, "read-modify-write sites of "+key, n, floor)
+}
+
+func fnSet(m map[*ssa.Function][]Access) map[*ssa.Function]bool {
+	res := map[*ssa.Function]bool{}
+	for f := range m {
+		res[f] = true
+	}
+	return res
 }
